@@ -104,7 +104,7 @@ def copyDenseIter (s : St) (dst src : Dense) : Res (St × Dense) := do
 /-- `Clone()` -/
 def clone (s : St) (t : Dense) : Res (St × Dense) := do
   let (s, b) := s.alloc (Array.replicate t.win.len Val.zero)
-  let r : Dense := { ap := { t.ap with fin := true }, old := t.old, tw := none,
+  let r : Dense := { ap := { t.ap with fin := true }, old := t.old, tw := t.tw,
                      win := ⟨b, 0, t.win.len, t.win.len⟩, dt := t.dt, eng := t.eng }
   copyDense s r t
 
